@@ -24,6 +24,7 @@ class SChar(object):
 
 
 class Tok(object):
+    bounds = (None, None)
     """A rendered number: value term, format, cell count n (concrete),
     natural length L (z3 Int, L <= n, and L == n if n > w)."""
     _ids = 0
@@ -536,7 +537,7 @@ def natural_length(kind, p, val, r):
     neg = z3.If(x < 0, 1, 0)
     if kind == 'd':
         ax = z3.If(x >= 0, x, -x)
-        return neg + _ndigits(lambda k: ax >= 10 ** k)
+        return neg + 1 + z3.Sum(*[z3.If(ax >= 10 ** k, 1, 0) for k in range(1, 21)])   # integers below 10^20
     ar = z3.If(r >= 0, r, -r)
     if kind == 'e':
         three = z3.Or(ar >= z3.RealVal(Fraction(10) ** 100),
@@ -578,8 +579,22 @@ def render_number(kind, w, p, val, left=False, maxlen=None):
     else:
         x = lift_real(val)
         r = rounded_value(kind, p, x)
-    L = natural_length(kind, p, x, r)
-    if cx.branch(L <= w):
+    nknown = None
+    if kind == 'd' and isinstance(val, SInt) and val.lo is not None and val.hi is not None and val.lo >= 0 \
+       and builtins.len(builtins.str(val.lo)) == builtins.len(builtins.str(val.hi)):
+        # same number of digits over the whole (asserted) range: nothing to fork on
+        nknown = builtins.len(builtins.str(val.hi))
+        L = z3.IntVal(nknown)
+    elif kind != 'd' and z3.is_app(x) and x.num_args() == 1 and x.decl().eq(Rfunc(kind, p)):
+        # printing a value that was itself read back from this format gives the
+        # same text as the original value did (R is idempotent): use the original's
+        # length term, which the path already knows about
+        L = natural_length(kind, p, x.arg(0), x)
+    else:
+        L = natural_length(kind, p, x, r)
+    if nknown is not None:
+        n = builtins.max(w, nknown)
+    elif cx.branch(L <= w):
         n = w
     else:
         n = None
@@ -590,6 +605,7 @@ def render_number(kind, w, p, val, left=False, maxlen=None):
         if n is None:
             raise Unsupported('rendering longer than %d' % top)
     tok = Tok(kind, x, w, p, n, L, r, left)
+    if isinstance(val, SInt): tok.bounds = (val.lo, val.hi)
     cx.add(z3.And(L >= 1, L <= n))
     return [TokCell(tok, k) for k in range(n)]
 
@@ -730,7 +746,9 @@ def _token_read(s, want):
 
 def _wrap(val, want, tok):
     if want == 'int':
-        return SInt(val) if z3.is_int(val) else SInt(z3.ToInt(val))
+        r = SInt(val) if z3.is_int(val) else SInt(z3.ToInt(val))
+        r.lo, r.hi = tok.bounds
+        return r
     if z3.is_int(val): return SReal(z3.ToReal(val))
     return SReal(val)
 
@@ -855,5 +873,11 @@ class IxStr(str):
             for r in range(builtins.len(runs) - 2, -1, -1):
                 k0, c0 = runs[r]
                 e = z3.If(i.e < runs[r + 1][0], i.e + (c0 - k0), e)
+            if builtins.len(runs) > 1 and builtins.len(set(codes)) == n:
+                # implied lemma (conservative extension, removes no values): the characters
+                # are distinct, so position is a function of the character; lets the solver
+                # conclude i1 == i2 from chars[i1] == chars[i2] without splitting the ite
+                inv = z3.Function('ixinv_' + '_'.join('%x' % cd for cd in codes), z3.IntSort(), z3.IntSort())
+                sym.ctx().add(inv(e) == i.e)
             return SStr([SChar(e)])
         return str.__getitem__(self, i)
